@@ -73,6 +73,12 @@ func (e *Exec) builtin(fr *frame, st *State, b *ssa.Builtin, c *ssa.CallCommon, 
 	case "ssa:wrapnilchk":
 		e.safety(st, "nil", smt.Neq(args[0], NilAddr), pos)
 		return args[0]
+	case "String": // unsafe.String(ptr, len)
+		n := toIndex(args[1], c.Args[1].Type())
+		e.safety(st, "bounds", smt.BVUle(n, cap48), pos)
+		r := smt.App("str.unsafe", StrS, args[0], n)
+		e.Axiom(smt.Implies(smt.BVUle(n, cap48), smt.Eq(e.strlen(st, r), n)))
+		return r
 	case "ssa:deferstack":
 		return NilAddr
 	case "recover":
@@ -305,7 +311,7 @@ func (e *Exec) appendOp(st *State, stype types.Type, s, more *smt.Term, moreT ty
 // appendAgg: append for slices of structs; supports a constant number of appended elements.
 func (e *Exec) appendAgg(st *State, et types.Type, s, more, n, newLen, inPlace *smt.Term, pos token.Pos) *smt.Term {
 	if !n.IsConst() || n.Val > 8 {
-		unsupported("append of a symbolic number of aggregate elements")
+		return e.appendAggSym(st, et, s, more, n, newLen, inPlace, pos)
 	}
 	ln, cp := SLen(s), SCap(s)
 	sIn := st.Clone()
@@ -397,4 +403,46 @@ func (e *Exec) copyOp(st *State, dt types.Type, dst, src *smt.Term, srcT types.T
 	}
 	e.writeHeap(st, smt.Neq(n, smt.Const(64, 0)), key, hs, SArr(dst), nil, nd, pos)
 	return n
+}
+
+// appendAggSym: append of a symbolic number of struct elements (flat structs only). Every field
+// heap gets a fresh version defined pointwise by a quantified axiom over addresses.
+func (e *Exec) appendAggSym(st *State, et types.Type, s, more, n, newLen, inPlace *smt.Term, pos token.Pos) *smt.Term {
+	stt, ok := et.Underlying().(*types.Struct)
+	if !ok {
+		unsupported("append of a symbolic number of array elements")
+	}
+	for i := 0; i < stt.NumFields(); i++ {
+		if isAggregate(stt.Field(i).Type()) {
+			unsupported("append of a symbolic number of nested aggregate elements")
+		}
+	}
+	ln, cp := SLen(s), SCap(s)
+	arr := e.newObj(st)
+	ncap := e.fresh("app.cap", BV64)
+	st.Assume(smt.BVUle(newLen, cap48))
+	e.Axiom(smt.Implies(smt.BVUle(newLen, cap48), smt.And(smt.BVUle(newLen, ncap), smt.BVUle(ncap, cap48))))
+	dstArr := smt.Ite(inPlace, SArr(s), arr)
+	dstOff := smt.Ite(inPlace, SOff(s), smt.Const(64, 0))
+	// frame: the in-place arm writes the spare capacity of the old array
+	e.checkFrame(st, smt.And(inPlace, smt.Neq(n, smt.Const(64, 0))), "F|"+structKey(et), SArr(s), pos)
+	for i := 0; i < stt.NumFields(); i++ {
+		fid := e.W.FieldID(et, i)
+		key := e.W.fieldInfo[fid].key
+		hs := e.fieldHeapSort(fid)
+		h := e.heap(st, key, hs)
+		nh := e.fresh("app|"+key, hs)
+		e.boundCtr++
+		a := smt.BoundVar(fmt.Sprintf("aa!%d", e.boundCtr), AddrS)
+		idx := smt.Sel(AddrS, "elm", 1, a)
+		inNew := smt.And(smt.Is("elm", a), smt.Eq(smt.Sel(AddrS, "elm", 0, a), dstArr))
+		rel := smt.BVSub(idx, dstOff) // index relative to the slice start
+		copied := smt.And(inNew, smt.Not(inPlace), smt.BVUlt(rel, ln))
+		appended := smt.And(inNew, smt.BVUle(ln, rel), smt.BVUlt(rel, newLen))
+		fromOld := smt.Select(h, Elm(SArr(s), smt.BVAdd(SOff(s), rel)))
+		fromSrc := smt.Select(h, Elm(SArr(more), smt.BVAdd(SOff(more), smt.BVSub(rel, ln))))
+		e.Axiom(smt.Forall([]*smt.Term{a}, smt.Eq(smt.Select(nh, a), smt.Ite(appended, fromSrc, smt.Ite(copied, fromOld, smt.Select(h, a))))))
+		e.setHeap(st, key, nh, nil)
+	}
+	return MkSlice(dstArr, dstOff, newLen, smt.Ite(inPlace, cp, ncap))
 }
